@@ -40,6 +40,7 @@ def run(ch: Checker) -> None:
                      'is sent and the entry removed after it; an unknown id touches nothing', 2)
     ch.rule('C18.5', 'helpers that use self.subscribers[id] unguarded (KeyError not caught) are called only while id is known present: after insertion / membership test / iteration, '
                      'and before any helper that may delete it', 3)
+    ch.rule('C18.8', 'EventQueue.publish / subscribe / unsubscribe put an object created in that very call (a dict display), never one kept on the instance or the module: events are delivered as they were when published', 1)
     ch.rule('C18.7', 'subscription ids are unique per subscription: EventSubscriber draws its id from a random / uuid source (or a counter), never from values every subscriber created by '
                      'the same thread shares (pid, thread id, time): the dispatcher keys its table by this id and a second subscriber with the same id silently replaces the first', 1)
     ch.rule('C18.6', 'handle_event dispatches on event_name: SUBSCRIBE and UNSUBSCRIBE are distinct constants, everything else is broadcast', 1)
@@ -84,6 +85,23 @@ def run(ch: Checker) -> None:
             if puts != 1:
                 bad_q.append('%s: a path through it performs %d put() calls (%s)' % (name, puts, ' / '.join('%s=%s' % kv for kv in allfacts(p).items())[:80]))
                 break
+    # C18.8: what is put on the queue is created by that call
+    bad8 = None
+    n8 = 0
+    for name in ('publish', 'subscribe', 'unsubscribe'):
+        fn = eq.methods[name]
+        for p in fpaths(cfg_of(fn, prog, exc_edges=False)):
+            sym8 = Sym(p, item_stores=True)
+            for i, st in p.stmts():
+                for c_ in walk_no_nested(st):
+                    if isinstance(c_, ast.Call) and attr_chain(c_.func) == 'self.queue.put' and c_.args:
+                        n8 += 1
+                        v = sym8.value(c_.args[0], i)
+                        fresh = isinstance(v, ast.Dict) or (isinstance(v, ast.Call) and attr_chain(v.func) == 'dict' and not any(isinstance(x, ast.Attribute) and attr_chain(x.value) == 'self' for x in ast.walk(v)))
+                        if not fresh:
+                            bad8 = ('%s puts %s on the queue, an object that outlives the call: two events published before the first is consumed (or pickled by the queue\'s feeder thread) are the same object '
+                                    'carrying the fields of the later one -- subscribers see the last event twice and never the first' % (name, norm(v)[:70]), p.describe())
+    ch.check(bad8 is None and n8 > 0, 'C18.8', eq.methods['publish'], 'a fresh object per event', 'every put() hands over a dict created in that call (%d put(s))' % n8, bad8[0] if bad8 else 'no put found', witness=bad8[1] if bad8 else None)
     ch.check(not bad_q, 'C18.1', eq.methods['publish'], 'producers only put', 'publish/subscribe/unsubscribe put exactly one event each', 'producer side is not a single put: %s' % bad_q)
 
     # ---------------- C18.2
@@ -199,6 +217,7 @@ def run(ch: Checker) -> None:
     gh = cfg_of(he, prog, exc_edges=False)
     bad4s = bad4u = bad5 = None
     n_sub = n_unsub = 0
+    n_failed_ack = 0
     for p in fpaths(gh):
         ch.paths += 1
         if p.exit_kind != 'return':
@@ -256,6 +275,7 @@ def run(ch: Checker) -> None:
             failed = any(gh.nodes[nid].kind == 'test' and lab is False and 'self._send(' in norm(gh.nodes[nid].ast) for nid, lab in p.steps)  # type: ignore[arg-type]
             if failed and 'remove' not in events:
                 bad4s = ('SUBSCRIBE: a subscriber whose SUBSCRIBED ack could not be delivered stays in the table', p.describe(20))
+            n_failed_ack += 1 if failed else 0
         if kind == 'unsub':
             n_unsub += 1
             if 'member' in events:
@@ -268,6 +288,9 @@ def run(ch: Checker) -> None:
                     bad4u = ('UNSUBSCRIBE of an unknown id touches the table (events %s)' % events, p.describe(20))
             else:
                 bad4u = ('UNSUBSCRIBE does not test whether the id is subscribed', p.describe(20))
+    if bad4s is None and n_sub > 0 and n_failed_ack == 0:
+        bad4s = ('SUBSCRIBE: whether the SUBSCRIBED ack could be delivered is not looked at, so a subscriber whose channel was already broken stays in the table '
+                 '(with whatever the failed send left of its connection) until some later broadcast trips over it', [])
     ch.check(bad4s is None and n_sub > 0, 'C18.4', he, 'SUBSCRIBE window', 'store before ack; failed ack removes the entry (%d path(s))' % n_sub, bad4s[0] if bad4s else 'no SUBSCRIBE path', witness=bad4s[1] if bad4s else None)
     ch.check(bad4u is None and n_unsub > 0, 'C18.4', he, 'UNSUBSCRIBE window', 'ack then removal for a known id; nothing for an unknown id (%d path(s))' % n_unsub, bad4u[0] if bad4u else 'no UNSUBSCRIBE path', witness=bad4u[1] if bad4u else None)
     ch.check(bad5 is None, 'C18.5', he, 'presence typestate in handle_event', 'unguarded helpers (%s) only called for ids known present' % sorted(needs_present), bad5[0] if bad5 else '', witness=bad5[1] if bad5 else None)
